@@ -4,7 +4,7 @@ cd /verif
 # works on a scratch worktree so that /repo stays untouched while the matrix runs
 export VERIF_REPO=/tmp/repo_mut
 git -C /repo worktree remove --force $VERIF_REPO 2>/dev/null; git -C /repo worktree add -q --detach $VERIF_REPO HEAD || exit 2
-declare -A EXTRA=( [C06-a]="C07" [C03-a]="C01" [C13-a]="C05 C20" [C10-a]="C06" [C20-a]="C05" [C01-a]="C09" [C02-a]="C13" [C01-b]="C05 C14" [C13-b]="C05" [C03-b]="C05 C13" [C04-b]="C19" [C10-b]="C06" [C12-b]="C07 C13" [C15-b]="C01" [C06-b]="C07 C04" [C09-b]="C03" [C11-b]="C04 C02" [C07-b]="C06" [C14-b]="C01 C13" [C20-b]="C05" [C05-c]="C10" [C13-c]="C10" [C19-c]="C06" [C04-a]="C11" [C02-c]="C05" [C12-c]="C10 C05" [C10-c]="C12" [C11-c]="C04" [C07-c]="C06" [C06-c]="C07" )
+declare -A EXTRA=( [C06-a]="C07" [C03-a]="C01" [C13-a]="C05 C20" [C10-a]="C06" [C20-a]="C05" [C01-a]="C09" [C02-a]="C13" [C01-b]="C05 C14" [C13-b]="C05" [C03-b]="C05 C13" [C04-b]="C19" [C10-b]="C06" [C12-b]="C07 C13" [C15-b]="C01" [C06-b]="C07 C04" [C09-b]="C03" [C11-b]="C04 C02" [C07-b]="C06" [C14-b]="C01 C13" [C20-b]="C05" [C05-c]="C10" [C13-c]="C10" [C19-c]="C06" [C04-a]="C11" [C02-c]="C05" [C12-c]="C10 C05" [C10-c]="C12" [C11-c]="C04" [C07-c]="C06" [C06-c]="C07" [C03-c]="C09 C01" [C04-c]="C19" [C20-c]="C05" )
 LIST="${@:-seeded/C*-*/}"
 for d in $LIST; do
   d="${d%/}/"
